@@ -404,6 +404,7 @@ package transport
 //@   ensures calls(newLazyDnsConn) <= 1 && (isNewConn ==> calls(newLazyDnsConn) == 1 && result_0 != nil)
 //@   ensures calls(newLazyDnsConn) == 1 ==> atunlock(ret(newLazyDnsConn, 0) in t.conns) && arg(lazyReserve, calls(lazyReserve) - 1, 0) == ret(newLazyDnsConn, 0)
 //@   ensures result_0 != nil && !isNewConn ==> calls(newLazyDnsConn) == 0
+//@   ensures calls(newLazyDnsConn) == 1 ==> calls(lazyReserve) == 1 || (calls(lazyReserve) == 2 && ret(lazyReserve, 0, 0) == nil)
 //@   loop 0:
 //@     invariant t != nil && t.conns == atlock(t.conns) && t.conns != nil && 0 <= reserveAttempt && reserveAttempt <= 17 && calls(newLazyDnsConn) == 0
 //@     invariant forall k *lazyDnsConn :: (k in t.conns) ==> k != nil
@@ -429,7 +430,7 @@ package transport
 //@   loop 0:
 //@     invariant t != nil && ctx != nil && len(m) >= 12 && 0 <= retry && retry <= 2
 //@     each iter_calls(getReservedExchanger) == 1 && iter_calls(ExchangeReserved) == 1 && iter_arg(ExchangeReserved, 0, 0) == iter_ret(getReservedExchanger, 0, 0) && iter_arg(ExchangeReserved, 0, 2) == m
-//@     each iter_ret(ExchangeReserved, 0, 1) != nil && !iter_ret(getReservedExchanger, 0, 1)
+//@     each iter_ret(ExchangeReserved, 0, 1) != nil && !iter_ret(getReservedExchanger, 0, 1) && iter_calls(ctxErr) == 1 && iter_ret(ctxErr, 0) == nil
 //@     decreases 2 - retry
 
 // Close (C07): idempotent; every pooled connection is closed; later calls are refused
